@@ -452,10 +452,14 @@ class Poly(object):
         return Poly({m: fn(c) for m, c in self.t.items()})
 
     def real(self):
-        """Real part assuming every atom is real valued."""
+        """Real part; atoms are real valued unless registered in COMPLEX_ATOMS (then (p + conj p) / 2)."""
+        if self.atoms() & COMPLEX_ATOMS or any(a.startswith('cj:') for a in self.atoms()):
+            return (self + self.conj()) * Poly.const(Fr(1, 2))
         return self.map_coefs(lambda c: c.comp(0).real() if not c.has_j() else _raise('real of j'))
 
     def imag(self):
+        if self.atoms() & COMPLEX_ATOMS or any(a.startswith('cj:') for a in self.atoms()):
+            return (self - self.conj()) * Poly.const(Fr(1, 2)) * Poly.const(Z8.I).inv()
         return self.map_coefs(lambda c: c.comp(0).imag() if not c.has_j() else _raise('imag of j'))
 
     def comp(self, b):
